@@ -73,14 +73,14 @@ class FileProcessor(object):
             return self._process_file(path)
 
     def _process_file(self, path):
-        abspath = os.path.abspath(path)
+        abspath = os.path.realpath(path)   # one file reached through a symbolic link is still one file
         if abspath in self.files:
             if self.files[abspath] is None:
                 raise CyclicIncludeError(path)
             return self.files[abspath]
         self.files[abspath] = None
 
-        with codecs.open(path, 'r', encoding='utf-8') as f:
+        with codecs.open(path, 'r', encoding='utf-8-sig') as f:
             content = f.read()
         result = self.process_content(content, path, lambda leaf: self.process_leaf(leaf))
         self.files[abspath] = result
